@@ -19,6 +19,9 @@ CLAIMS = {
     'C03': dict(tech='eval sweep (PolicyEngine.CheckIfAllowed on an engine built as list builds it + the built k8snetpolicy eval binary) recorded as Eval events and validated by TLC against Ref and against the list result of the same run',
                 text='Every recorded eval reply (all ordered endpoint pairs incl. same pod / other pod of the same workload / address representatives; 3 protocols; both ends and the middle of every port chunk) '
                      'must equal the reference and the list result of the same run and must not be an error where list succeeded.', ref='6/C03'),
+    'C04': dict(tech='point-wise diff reference (DiffRef.tla) evaluated by TLC on Diff events recorded for every edge of TLC-generated edit behaviours (diff(prev,cur), diff(cur,prev), diff(cur,cur)) run through the real ConnDiffFromDirPaths',
+                text='For every pair of consecutive worlds of a behaviour (edits include add/remove/re-express workload, policy edits, ipBlock changes, admin policies) and every point (workload-key pair or workload/address class) '
+                     'the real diff must have no covering entry when c1=c2=none and otherwise exactly one, of the right type, carrying exactly the reference c1 and c2 and the right new/lost flags; also for the swapped pair and for (A,A).', ref='6/C04'),
     'C05': dict(tech='well-formedness predicate (Obs.tla WellFormedMismatches) evaluated by TLC on the raw, un-abstracted ranges of every recorded list result',
                 text='Uniqueness of (src,dst), no self / ip-ip / empty entries, IP peers form a partition of 0.0.0.0-255.255.255.255 into single ranges, canonical port ranges, all-connections flag <=> three full ranges: '
                      'checked by TLC on every list observation of NetworkPolicy and admin-policy worlds.', ref='6/C05'),
@@ -33,6 +36,10 @@ CLAIMS = {
                      'operation outcomes (ok/error/no crash) equal the model; all histories of 3 (quick) / 4 (thorough) operations over a 13-operation catalogue after a cache-warming prefix are enumerated exhaustively, '
                      'long random walks and seeded random histories over a larger universe are sampled.', ref='6/C15',
                 note='Trusted: TLC, Json module, EngineModel.tla as the reading of "current objects"; hook VerifSnapshot (read-only) for cache statistics and the order of sortedAdminNetpols. LRU eviction and goroutine-concurrent use are out of scope.'),
+    'C19': dict(tech='finite conflict space enumerated exhaustively by TLC (Conflict.tla), materialised and run through list and diff (dir1/dir2), outcomes validated by TLC (ConflictTrace.tla); design argument for detection inside the sort callback model-checked (SortConflict.tla)',
+                text='Every case of the enumerated space (8 conflict kinds x sizes x document positions of the conflicting resources x 5 arrangement families of the other priorities, plus control cases without conflict) must be rejected by list and by diff (either side) '
+                     'with an error of the right class that names a conflicting resource, a fatal entry and no report; controls must pass. Exhaustive over the enumerated space only.', ref='6/C19',
+                note='Trusted: TLC, Json module; the mapping of error texts to conflict classes in the harness (substring of the tool\'s own error constants). Sizes and arrangement families outside the enumerated space are not covered.'),
     'C17': dict(tech='ReExpressWorkload action of Cluster.tla (8 kinds, replicas, bare pods with one owner) with the law "report equal modulo [Kind]" on real reports, plus the per-state peer-set predicate',
                 text='For every re-expression edge the two real reports are equal per abstract workload; in every state the returned peers are exactly one per workload.', ref='6/C17'),
 }
